@@ -273,6 +273,9 @@ class MockState:
 
         Line nodes are placed into child line block containers, based on their indentation.
         """
+        if len(block) and getattr(block[0], "indent", None) is None:
+            # a blank first line (docutils' own callers never pass one)
+            block[0].indent = 0
         for index in range(1, len(block)):
             if getattr(block[index], "indent", None) is None:
                 block[index].indent = block[index - 1].indent
